@@ -449,6 +449,7 @@ func Run(r *common.Run) error {
 	// stream decoders (Unwrap on arbitrary documents) and inserting transformers
 	streamCases(c)
 	pageIterCases(c)
+	sessIterCases(c)
 	// pubsub request builders on a real session
 	nPub := r.Pick(60, 600)
 	for k := 0; k < nPub; k++ {
